@@ -142,6 +142,16 @@ def modelLine (tbl : Table) (s : State) (line : String) : Table × State × Stri
       (tbl, s', s!"ok {counts s'} same={same} recs={dump s'}")
     | .error (.panic _) => (tbl, s, s!"panic {counts s} same=1 recs={dump s}")
     | .error (.reject _) => (tbl, s, s!"rej {counts s} same=1 recs={dump s}")
+  | "record" :: "ghost_tx" :: r =>
+    -- the transaction executed on a context that is thrown away: the ids it would hand out, the state as it was
+    match parseOp tbl ("record" :: "tx" :: r) with
+    | none => (tbl, s, "bad-op")
+    | some op =>
+      let res := step s op
+      let ids := match res with
+        | .ok _ => (Spec.C19.opEntries s op).map fun (e : Spec.C19.Entry) => hexOfId e.id
+        | .error _ => []
+      (tbl, s, s!"{resWord res} {counts s} ghost={if ids.isEmpty then "-" else joinWith ";" ids}")
   | _ =>
     match parseOp tbl t with
     | none => (tbl, s, "bad-op")
@@ -192,6 +202,10 @@ def runMonitor (ops obs : Array String) : IO Unit := do
       match parseTable r with
       | some tb => tbl := tb; mon := Spec.C19.resetMon ((natArg? o "n").getD 0)
       | none => out.putStrLn s!"mon C19 FAIL clause=parse line={i+1}"; fails := fails + 1
+    | "record" :: "ghost_tx" :: _ =>
+      -- a discarded execution: the number of stored records is what it was
+      if natArg? o "n" != some mon.n then
+        out.putStrLn s!"mon C19 FAIL clause=ghost-visible line={i+1}"; fails := fails + 1
     | _ =>
       match parseOp tbl t, natArg? o "n" with
       | some op, some n' =>
@@ -253,6 +267,9 @@ def runMonitorC12 (ops obs : Array String) : IO Unit := do
           out.putStrLn s!"mon C12 FAIL {f} line={i+1}"; fails := fails + 1
         known := post; ctr := c
       | _, _, _ => out.putStrLn s!"mon C12 FAIL clause=obs-parse line={i+1}"; fails := fails + 1
+    | "record" :: "ghost_tx" :: _ =>
+      if natArg? o "n" != some known.length then
+        out.putStrLn s!"mon C12 FAIL clause=count-differs line={i+1}"; fails := fails + 1
     | _ =>
       match parseOp tbl t, natArg? o "ctr", natArg? o "n" with
       | some op, some c, some n =>
